@@ -8,6 +8,7 @@ import (
 	"time"
 
 	"github.com/junioryono/godi/v4"
+	"github.com/junioryono/godi/v4/verifh/core"
 	"github.com/junioryono/godi/v4/verifh/eng"
 	"github.com/junioryono/godi/v4/verifh/pool"
 	"github.com/junioryono/godi/v4/verifh/rt"
@@ -29,6 +30,7 @@ type retained struct {
 
 // seqRun executes one operation sequence against a real collection and the reference.
 type seqRun struct {
+	hist []*Op // every step executed so far (directed refused-build sequences consult the model)
 	e        *env
 	c        godi.Collection
 	s        *Ref
@@ -218,7 +220,55 @@ func (q *seqRun) execute(o *Op, stepNo int) (j judged) {
 }
 
 // step executes one op and runs every oracle; it returns the findings of this step.
+// modelSaysBuildable: the registration history so far, judged by the reference model of
+// package core (dependency, lifetime and cycle validation of the FINAL set). Used as a second
+// opinion when Build fails on the collection AND on its fresh twin: a twin built in the same
+// process cannot see state the container keeps per process.
+func (q *seqRun) modelSaysBuildable() (ok, decided bool) {
+	spec := &core.Spec{}
+	for _, o := range q.hist {
+		switch o.Kind {
+		case "add":
+			meta := pool.ByName(o.Ctor)
+			if meta == nil {
+				return false, false
+			}
+			life := godi.Transient
+			switch o.Life {
+			case "singleton":
+				life = godi.Singleton
+			case "scoped":
+				life = godi.Scoped
+			}
+			spec.Regs = append(spec.Regs, core.Reg{Ctor: meta.ID, Life: life, Name: o.Name, Group: o.Group, As: append([]string(nil), o.As...)})
+		case "remove":
+			spec.Regs = append(spec.Regs, core.Reg{Remove: true, RmType: o.Type})
+		case "removeKeyed":
+			if o.KeyKind != "" {
+				return false, false
+			}
+			spec.Regs = append(spec.Regs, core.Reg{Remove: true, RmType: o.Type, RmKey: o.Key})
+		case "build":
+		default:
+			return false, false
+		}
+	}
+	defer func() {
+		if recover() != nil {
+			ok, decided = false, false
+		}
+	}()
+	m := core.NewModel(spec)
+	for i := range m.Regs {
+		if rj := m.Regs[i].Reject; rj != "" && !strings.HasPrefix(rj, "(") {
+			return false, false // a rejected Add call in the history: left to the twin
+		}
+	}
+	return m.Class == core.ClsOK, true
+}
+
 func (q *seqRun) step(o *Op, stepNo int) []finding {
+	q.hist = append(q.hist, o)
 	q.stats["steps"]++
 	q.stats["op_"+o.Kind]++
 	viewsBefore := q.e.observeViews(q.c)
@@ -306,6 +356,12 @@ func (q *seqRun) step(o *Op, stepNo int) []finding {
 					q.stats["refused_builds_that_succeeded"]++
 				} else {
 					q.stats["refused_builds"]++
+					// this file's own reference counts every dependency as required; the model of
+					// package core knows optional and group dependencies
+					if ok, decided := q.modelSaysBuildable(); decided && ok {
+						fs = append(fs, finding{"history-affects-build", "C17/history-affects-build:valid-set-refused",
+							fmt.Sprintf("Build fails (%v) after %s although the surviving registrations %s have no cycle, no lifetime conflict and no missing required dependency: a registration that was removed - or a Build that was refused earlier - has an effect on this one", err, o, q.s)})
+					}
 				}
 			}()
 		}
@@ -334,6 +390,12 @@ func (q *seqRun) step(o *Op, stepNo int) []finding {
 					fmt.Sprintf("Build fails (%v) after %s, while a fresh collection holding exactly the surviving registrations %s builds", b.Err, o, q.s)})
 			default:
 				q.stats["build_fails_also_on_fresh_collection"]++
+				if c17RefusedBuilds {
+					if ok, decided := q.modelSaysBuildable(); decided && ok {
+						fs = append(fs, finding{"history-affects-build", "C17/history-affects-build:valid-set-refused-on-the-collection-and-on-a-fresh-one",
+							fmt.Sprintf("Build fails (%v) after %s - also on a fresh collection holding exactly the surviving registrations %s - although that set has no cycle, no lifetime conflict and no missing required dependency: something outside the collection (an earlier, refused Build in this process?) has an effect on later builds", b.Err, o, q.s)})
+					}
+				}
 			}
 		default:
 			q.stats["builds_ok"]++
@@ -637,6 +699,15 @@ func refusedBuildSequences() [][]*Op {
 		{add("scoped", "Leaf_K0_b"), add("singleton", "PosA_1_1"), b, {Kind: "remove", Type: "K1"}, add("scoped", "PosA_1_1"), b},
 		// refused twice in a row, rejected Add in between
 		{add("scoped", "PosA_1_1"), b, add("scoped", "PosA_1_1"), b, add("singleton", "Leaf_K0_a"), b},
+		// a captive OPTIONAL dependency: refused; repaired by removing the scoped service (an absent
+		// optional dependency is fine): the removed registration has no effect on the next Build
+		{add("scoped", "Leaf_K1_a"), add("singleton", "InU_0_2_Opt"), b, {Kind: "remove", Type: "K1"}, b, add("transient", "Leaf_K1_b"), b},
+		{add("scoped", "Leaf_K1_a"), add("transient", "InU_0_2_Opt"), b, b, {Kind: "remove", Type: "K1"}, b},
+		// ... and the collection after it (another collection of the same process, same Go types)
+		{add("singleton", "InU_0_2_Opt"), b, add("scoped", "Leaf_K1_c"), b},
+		// a cycle: refused; broken by removing one service; the next collection uses the same types
+		{add("scoped", "PosA_0_2"), add("scoped", "PosA_1_1"), b, {Kind: "remove", Type: "K1"}, add("scoped", "Leaf_K1_a"), b},
+		{add("singleton", "Leaf_K1_a"), add("singleton", "PosA_0_2"), b},
 	}
 }
 
